@@ -1,7 +1,14 @@
 (** C03 — storms and rises are exactly maximal above-threshold runs; the rain
-    depth of a storm is the sum over exactly its steps. *)
+    depth of a storm is the sum over exactly its steps.
+
+    Two levels: one gap-free stretch in index space (C03_recorded_intervals_..),
+    and the rows written by the whole `classify` command in EPOCH terms
+    (C03_command_intervals_are_maximal_runs_of_one_stretch, model
+    Model/ClassifyCommand.v): the mapping between epochs and sample indices of
+    a stretch is part of the model and of the proof, not of the harness. *)
 From Spowtd Require Import Model.Matching Model.Flags Model.DepthView Proofs.RunsSpec
   Proofs.MatchingSpec Proofs.MatchStormsSpec Proofs.ClassifySpec Proofs.FlagsSpec Proofs.DepthViewSpec.
+From Spowtd Require Import Model.ClassifyCommand Proofs.ClassifyCommandSpec.
 Close Scope Q_scope.
 
 (** Every recorded storm (s,e) is a maximal run of heavy-rain flags s..e-1 and
@@ -47,3 +54,43 @@ Print Assumptions C03_depth_is_sum_over_storm_steps.
 Example C03_example_depth :
   (view_depth (1000 + 1 * 600) (1000 + 3 * 600) (grid_rows 1000 600 [1; 6; 12; 3]) == 3)%Q.
 Proof. vm_compute. reflexivity. Qed.
+
+(** * The whole command, in epoch terms
+
+    Every row [start, thru) of table storm is a maximal run of k >= 1 grid steps
+    of ONE stretch with intensity > threshold: the k step starts
+    start, start + step, .., start + (k-1) step are samples i .. i+k-1 of that
+    stretch, thru = start + k step (= start of the last step + step: it never
+    extends across a gap), the flags i .. i+k-1 are on and the run is maximal in
+    the stretch.  Every zeta_interval row of type 'storm' (levels read at
+    start .. thru) is a maximal run of k >= 1 increments above threshold x step
+    between samples i .. i+k of ONE stretch, thru = start + k step.
+    (C03_heavy_flag_strict / C03_jump_flag_strict give the float meaning of the
+    flags.) *)
+Theorem C03_command_intervals_are_maximal_runs_of_one_stretch : forall step thr_s thr_j ds scheds c,
+  loaded_ok step ds = true -> classify_command step thr_s thr_j ds scheds = Ok c ->
+  (forall start thru, In (start, thru) (c_storm c) ->
+     exists s i k, In s ds /\ 1 <= k /\ i + k <= length (s_epochs s) /\
+       (forall j, j < k -> nth (i + j) (s_epochs s) 0%Z = (start + Z.of_nat j * step)%Z) /\
+       thru = (start + Z.of_nat k * step)%Z /\
+       is_run (heavy_flags thr_s (s_rain s)) i (i + k)) /\
+  (forall a thru, In (a, TStorm, thru) (c_zeta_interval c) ->
+     exists s i k, In s ds /\ 1 <= k /\ i + k < length (s_epochs s) /\
+       (forall j, j <= k -> nth (i + j) (s_epochs s) 0%Z = (a + Z.of_nat j * step)%Z) /\
+       thru = (a + Z.of_nat k * step)%Z /\
+       is_run (jump_incr_flags thr_j step (s_zeta s)) i (i + k)).
+Proof. exact command_intervals_are_runs. Qed.
+Print Assumptions C03_command_intervals_are_maximal_runs_of_one_stretch.
+
+(** Non-vacuity: the storm of the first stretch runs to the last sample of the
+    stretch and closes at 1361332800 = 1361329200 + 3600, an instant inside the
+    outage that separates the two stretches. *)
+Example C03_command_example :
+  loaded_ok 3600 example_dataset = true /\
+  classify_command 3600 4 1 example_dataset [] = Ok example_rows /\
+  In (1361325600, 1361332800)%Z (c_storm example_rows) /\
+  ~ In 1361332800%Z (all_epochs example_dataset).
+Proof.
+  split; [vm_compute; reflexivity|]. split; [vm_compute; reflexivity|].
+  split; [left; reflexivity|]. vm_compute. intuition discriminate.
+Qed.
